@@ -404,7 +404,7 @@ impl<const N: usize> udp__AEADCipherCodec<N> {
     fn encode(&self, context: &udp__Context<N>, session: &udp__Session<N>, address: &Address, item: BytesMut, dst: &mut BytesMut) -> (r: anyhow::Result<()>)
         requires self.wf(context), repr(*address),
             // a 2022 packet is built in place from the start of the buffer (UdpFramed hands the encoder its flushed, empty write buffer)
-            self.kind.is_2022() ==> old(dst)@.len() == 0 && context.identity_keys@.len() <= 0x0fff_ffff,
+            self.kind.is_2022() ==> old(dst)@.len() == 0 && (context.stream_type is Client ==> context.identity_keys@.len() <= 0x0fff_ffff),
         ensures
             //#C02 C03 C12 C14
             // 2022 datagram, client side: exactly one SIP022 packet for this session id, packet id, address and payload
@@ -955,7 +955,7 @@ impl<'a, const N: usize> udp__SessionCodec<'a, N> {
 
     fn encode(&self, verif_arg2: udp__SessionPacket<N>, dst: &mut BytesMut) -> (r: anyhow::Result<()>)
         requires self.wf(), repr(verif_arg2.1),
-            self.cipher.kind.is_2022() ==> old(dst)@.len() == 0 && self.context.identity_keys@.len() <= 0x0fff_ffff,
+            self.cipher.kind.is_2022() ==> old(dst)@.len() == 0 && (self.context.stream_type is Client ==> self.context.identity_keys@.len() <= 0x0fff_ffff),
         ensures
             //#C02 C03 C12
             (self.cipher.kind.is_2022() && self.context.stream_type is Client && r is Ok) ==> exists|nonce: Seq<u8>, pad: Seq<u8>| #[trigger] udp22_c2s_is(self.cipher.kind, self.context, verif_arg2.2.client_session_id, verif_arg2.2.packet_id, absaddr(verif_arg2.1), verif_arg2.0@, nonce, pad, final(dst)@),
